@@ -150,6 +150,13 @@ def _tz(P, zn):
     return _TZ[zn]
 
 
+def _safe(f, *a):
+    try:
+        return tuple(f(*a))
+    except Exception as e:  # noqa: BLE001
+        return "raised-" + type(e).__name__
+
+
 def _getters(M, P, d, w):
     """judge the eight getters on Date and DateTime for native date d"""
     y, m, dd = d.year, d.month, d.day
@@ -251,4 +258,15 @@ def run(M, c):
             M.check("backend_eq", len(set(out)) == 1, "C15/backend-mismatch:local_time", "implementations differ", ts=tsv, off=off, got=out)
             if i % 101 == 0:
                 M.cls("randts", ts // 86400, off)
+        # instants up to a day outside the representable range whose LOCAL time (timestamp + offset) is inside it
+        for i in range(400):
+            if i % 2:
+                ts = LO - r.randrange(1, 86400)
+                off = r.randrange(LO - ts, 86400)
+            else:
+                ts = HI + r.randrange(1, 86400)
+                off = -r.randrange(ts - HI, 86400)
+            out = [_safe(m.local_time, ts, off, 0) for tag, m in impls]       # contracts judge each value
+            M.check("backend_eq", len(set(out)) == 1 and not isinstance(out[0], str), "C15/backend-mismatch:local_time:range-edge",
+                    "implementations differ (or raise) for a local time inside years 1..9999", ts=ts, off=off, got=out)
         M.sample({"k": "randts", "n": c["n"]})
